@@ -178,7 +178,11 @@ let handle toks = match toks with
   | ["run"; "replay"; steps; b; p; r; a; file0; verdicts; fuel] ->
       let step_of s =
         let body = String.sub s 2 (String.length s - 2) in
-        if s.[0] = 'W' then RRaw (bytes_of_hex body)
+        if s.[0] = 'F' then RFail (match body with
+            | "AssertionError" -> AssertionError | "IndexError" -> IndexError | "ValueError" -> ValueError
+            | "TypeError" -> TypeError | "LithiumError" -> LithiumError | "ZeroDivisionError" -> ZeroDivisionError
+            | _ -> RuntimeError)
+        else if s.[0] = 'W' then RRaw (bytes_of_hex body)
         else (match String.split_on_char '/' body with
             | [b; p; r; a] -> RProp (tc_of b p r a)
             | _ -> failwith "replay step") in
